@@ -557,6 +557,16 @@ def monitor_c11(ctx):
             t = rng.choice(histgen.near_dups(rng.choice(used)) + [rng.choice(histgen.STATEFUL)])
             finals.append(['eval', t, 0, 'default', rng.randrange(1, 2 ** 31)] if rng.random() < 0.7 else ['parse', t])
         pp.append({'heap': h['heap'], 'calls': h['calls'], 'finals': finals, 'fresh_parser': rng.random() < 0.5})
+    # every builtin called with missing / ill-typed / surplus arguments (the failures nobody anticipates), then inexact arithmetic:
+    # whatever such a failure leaves behind at thread or module level, the later call answers as in a pristine interpreter
+    fnames = [n for n in sqimpl.load().functions.FUNCTIONS.keys() if not n.startswith('__')]
+    BADARGS = ['"3.14159", 2', 'None', '[1]', '"x"', '1, "a"', '{}', '', 'None, None', '1, 2, 3, 4', '"1e400"', '[], []', 'x => x']
+    for i in range(0, len(fnames), 6):
+        calls = [['eval', f'{fn}({a})', 0, 'default', 7] for fn in fnames[i:i + 6] for a in BADARGS]
+        pp.append({'heap': '(U (M 1 (S:78 D:0:22:0:c)))', 'calls': calls,
+                   'finals': [['eval', '1 / 3', 0, 'default', 7], ['eval', '2 ** 0.5', 0, 'default', 7], ['eval', 'x / 7 + 1', 0, 'default', 7],
+                              ['eval', 'round(2 / 3, 30)', 0, 'default', 7], ['eval', '[1.5 * 2.5, 0.1 + 0.2]', 0, 'default', 7]],
+                   'fresh_parser': i % 12 == 0})
     c = _run('c11_process', 'c11_process', pp, 'after a history in one process, further calls (sources equal / nearly equal to earlier ones: other '
              'blanks, case, quotes, number spellings) with freshly built arguments, on the used or on a new SqParser, compared with the same call '
              'in a pristine interpreter forked from a process that never parsed or evaluated anything')
